@@ -88,13 +88,17 @@ def label(name):
         LABELS[name] = LABELS.get(name, 0) + 1
 
 
-def check(prop, cond, sig, detail):
-    """An assertion owned by `prop`.  Under another property it only discards the case."""
+def check(prop, cond, sig, detail, observation=False):
+    """An assertion owned by `prop`.  Under another property it discards the case - unless it is a pure observation
+    (a comparison of what the coder shows with the reference, which does not influence what happens next): then the
+    case goes on, so that the running property's own assertions still get their turn."""
     if cond:
-        return
+        return True
     if prop == STATE["prop"]:
         raise Violation("%s/py/%s" % (prop, sig), detail() if callable(detail) else detail)
     label("foreign:" + prop + "/" + sig)
+    if observation:
+        return False
     raise Discard()
 
 
@@ -349,6 +353,11 @@ def hexw(ws):
     return "[" + " ".join("%08x" % w for w in ws) + "]"
 
 
+def is_panic(e):
+    """pyo3 turns a Rust panic into `pyo3_runtime.PanicException`, which derives from BaseException, not Exception"""
+    return type(e).__name__ == "PanicException"
+
+
 def expect_error(fn):
     """fn must raise an ordinary Python exception (any kind).  Returns True if it did."""
     try:
@@ -395,7 +404,7 @@ def run_ans(case):
     def cmp_export(prop, sig, what):
         got = coder.get_compressed().tolist()
         want = ref.export()
-        check(prop, got == want, sig, lambda: "%s: get_compressed() = %s, reference rANS = %s" % (what, hexw(got), hexw(want)))
+        check(prop, got == want, sig, lambda: "%s: get_compressed() = %s, reference rANS = %s" % (what, hexw(got), hexw(want)), observation=True)
         return got
 
     def do_push(g, j, s):
@@ -495,11 +504,11 @@ def run_ans(case):
         elif k == "insp":
             want = ref.export()
             nw, nb, nv, em = coder.num_words(), coder.num_bits(), coder.num_valid_bits(), coder.is_empty()
-            check("C18", nw == len(want), "ans/num_words", lambda: "num_words() = %d, export has %d words" % (nw, len(want)))
-            check("C18", nb == 32 * len(want), "ans/num_bits", lambda: "num_bits() = %d, export has %d words" % (nb, len(want)))
+            check("C18", nw == len(want), "ans/num_words", lambda: "num_words() = %d, export has %d words" % (nw, len(want)), observation=True)
+            check("C18", nb == 32 * len(want), "ans/num_bits", lambda: "num_bits() = %d, export has %d words" % (nb, len(want)), observation=True)
             valid = 0 if not want else 32 * (len(want) - 1) + want[-1].bit_length() - 1
-            check("C18", nv == valid, "ans/num_valid_bits", lambda: "num_valid_bits() = %d, export %s has %d" % (nv, hexw(want), valid))
-            check("C18", em == (len(want) == 0), "ans/is_empty", lambda: "is_empty() = %r, export %s" % (em, hexw(want)))
+            check("C18", nv == valid, "ans/num_valid_bits", lambda: "num_valid_bits() = %d, export %s has %d" % (nv, hexw(want), valid), observation=True)
+            check("C18", em == (len(want) == 0), "ans/is_empty", lambda: "is_empty() = %r, export %s" % (em, hexw(want)), observation=True)
             coder.get_compressed()
             coder.pos()
             cmp_export("C08", "ans/inspection_changed_coder", "after num_words / num_bits / num_valid_bits / is_empty / get_compressed / pos")
@@ -607,8 +616,8 @@ def run_range(case):
         except CarryOut:
             raise AssertionError("reference range coder: carry out of the first word")
         got = (coder or enc).get_compressed().tolist()
-        check(prop, got == want, sig, lambda: "%s: get_compressed() = %s, reference range coder = %s" % (what, hexw(got), hexw(want)))
-        return want
+        check(prop, got == want, sig, lambda: "%s: get_compressed() = %s, reference range coder = %s" % (what, hexw(got), hexw(want)), observation=True)
+        return got
 
     def push(g, j, s):
         c, p = groups[g].cp(j, s)
@@ -642,9 +651,9 @@ def run_range(case):
         elif k == "insp":
             want = cmp_sealed("C06", "range/stream_differs_from_reference", "at a prefix of %d symbols" % len(msg))
             nw, nb, em = enc.num_words(), enc.num_bits(), enc.is_empty()
-            check("C18", nw == len(want), "range/num_words", lambda: "num_words() = %d, sealed stream has %d words" % (nw, len(want)))
-            check("C18", nb == 32 * len(want), "range/num_bits", lambda: "num_bits() = %d, sealed stream has %d words" % (nb, len(want)))
-            check("C18", em == (len(msg) == 0), "range/is_empty", lambda: "is_empty() = %r after %d symbols" % (em, len(msg)))
+            check("C18", nw == len(want), "range/num_words", lambda: "num_words() = %d, sealed stream has %d words" % (nw, len(want)), observation=True)
+            check("C18", nb == 32 * len(want), "range/num_bits", lambda: "num_bits() = %d, sealed stream has %d words" % (nb, len(want)), observation=True)
+            check("C18", em == (len(msg) == 0), "range/is_empty", lambda: "is_empty() = %r after %d symbols" % (em, len(msg)), observation=True)
             d = enc.get_decoder()
             enc.pos()
             if op[1] % 2:
@@ -676,7 +685,8 @@ def run_range(case):
                 what = "encode([%d, ..], family, params)" % s
             label("range:bad_symbol")
             check("C09", ok, "range/impossible_symbol_not_rejected", lambda: "%s on support %d..%d did not raise" % (what, G.lo[j], G.hi[j]))
-            cmp_sealed("C09", "range/failed_encode_changed_encoder", "after the refused " + what)
+            got9, want9 = enc.get_compressed().tolist(), ref.sealed()
+            check("C09", got9 == want9, "range/failed_encode_changed_encoder", lambda: "after the refused %s: get_compressed() = %s, before it was %s" % (what, hexw(got9), hexw(want9)))
         else:
             raise AssertionError(k)
 
@@ -754,22 +764,33 @@ def run_range_arbitrary(case):
     dec = RangeDecoder(u32(words))
     ref = RefRangeDecoder(words)
     n = 0
-    for g, j in case["decodes"]:
+    forms = case.get("forms") or [0]
+
+    def dec_one(G, j, i):
+        form = forms[i % len(forms)]
+        if form == 1:
+            return int(dec.decode(G.concrete[j], 1)[0])
+        if form == 2:
+            return int(dec.decode(G.fam, *G.fam_params([j]))[0])
+        return int(dec.decode(G.concrete[j]))
+
+    for i, (g, j) in enumerate(case["decodes"]):
         G = groups[g]
         j %= G.k
         q = ref.quantile()
         if q is None:
             # invalid data: the decoder must say so (an exception), or - being lenient - return a support symbol
             try:
-                got = int(dec.decode(G.concrete[j]))
+                got = dec_one(G, j, i)
             except (KeyboardInterrupt, SystemExit, MemoryError):
                 raise
-            except BaseException:  # noqa: BLE001
+            except BaseException as e:  # noqa: BLE001
                 label("range:invalid_data_reported")
+                check("C10", not is_panic(e), "range/decode_panicked", lambda: "decoding invalid data raised a Rust panic instead of the documented error: %s" % str(e)[:200])
                 return n >= 2
             check("C10", G.lo[j] <= got <= G.hi[j], "range/decoded_symbol_outside_support", "decode returned %d, support %d..%d" % (got, G.lo[j], G.hi[j]))
             return n >= 2
-        got = int(dec.decode(G.concrete[j]))
+        got = dec_one(G, j, i)
         want = G.lookup(j, q)
         check("C10", G.lo[j] <= got <= G.hi[j], "range/decoded_symbol_outside_support", lambda: "decode returned %d, support %d..%d" % (got, G.lo[j], G.hi[j]))
         check("C10", got == want, "range/decoded_symbol_is_not_the_models_symbol_for_the_quantile", lambda: "decode returned %d; quantile %d belongs to %d" % (got, q, want))
@@ -828,8 +849,9 @@ def run_chain(case):
                 raise AssertionError(k)
         except (KeyboardInterrupt, SystemExit, MemoryError, Violation, Discard):
             raise
-        except BaseException:  # noqa: BLE001  running out of data is reported as an error; a batch call may have consumed part of the data
+        except BaseException as e:  # noqa: BLE001  running out of data is reported as an error; a batch call may have consumed part of the data
             label("chain:decode_error(out_of_data)")
+            check("C10", not is_panic(e), "chain/decode_panicked", lambda: "%s on %d words raised a Rust panic instead of the documented out-of-data error: %s" % (op, len(data), str(e)[:200]), observation=True)
             return False
         for j, s in zip(js, got):
             G = groups[g]
@@ -918,7 +940,7 @@ def bits_of(words, nbits):
 def run_symbol(case):
     weights = case["weights"]
     n = len(weights)
-    arr = np.array(weights, dtype=np.float32 if case["f32"] else np.float64)
+    arr = presented(np.array(weights, dtype=np.float32 if case["f32"] else np.float64))
     try:
         et = HUF.EncoderHuffmanTree(arr)
         dt = HUF.DecoderHuffmanTree(arr)
@@ -1106,7 +1128,7 @@ def gj(draw, gs):
 @st.composite
 def ans_case(draw):
     gs = draw(groups_s())
-    bitsback = PROP == "C04" or (PROP in ("C10",) and draw(st.booleans()))
+    bitsback = PROP == "C04" or (PROP in ("C10", "C18") and draw(st.booleans()))
     init = None
     if bitsback:
         init = {"words": draw(st.lists(word, min_size=0, max_size=12)), "seal": True}
@@ -1117,7 +1139,7 @@ def ans_case(draw):
         init = {"words": ws, "seal": False}
     nops = draw(st.integers(1, 24))
     ops = []
-    kinds = ["d1", "d1", "di", "df"] if bitsback else ["e1", "e1", "ei", "ef", "d1", "d1", "di", "df", "reload", "clone", "insp", "snap", "seek", "badseek", "bad"]
+    kinds = ["d1", "d1", "di", "df", "insp"] if bitsback else ["e1", "e1", "ei", "ef", "d1", "d1", "di", "df", "reload", "clone", "insp", "snap", "seek", "badseek", "bad"]
     for _ in range(nops):
         k = draw(st.sampled_from(kinds))
         g, j = gj(draw, gs)
@@ -1175,7 +1197,8 @@ def range_arb_case(draw):
     decs = []
     for _ in range(draw(st.integers(1, 12))):
         decs.append(list(gj(draw, gs)))
-    return {"prop": PROP, "kind": "range_arb", "groups": gs, "words": draw(st.lists(word, min_size=0, max_size=10)), "decodes": decs}
+    return {"prop": PROP, "views": draw(views_s), "kind": "range_arb", "groups": gs, "words": draw(st.lists(word, min_size=0, max_size=10)), "decodes": decs,
+            "forms": draw(st.lists(st.integers(0, 2), min_size=1, max_size=4))}
 
 
 @st.composite
@@ -1205,7 +1228,7 @@ def chain_case(draw):
 def symbol_case(draw):
     n = draw(st.integers(1, 12))
     ws = draw(st.lists(st.one_of(st.integers(0, 12), st.integers(0, 4000), st.sampled_from([0, 1, 2, 4, 8, 1 << 16])), min_size=n, max_size=n))
-    return {"prop": PROP, "kind": "symbol", "weights": ws, "f32": draw(st.booleans()), "msg": draw(st.lists(byte, min_size=0, max_size=40)),
+    return {"prop": PROP, "views": draw(views_s), "kind": "symbol", "weights": ws, "f32": draw(st.booleans()), "msg": draw(st.lists(byte, min_size=0, max_size=40)),
             "extra": draw(st.lists(byte, min_size=0, max_size=6)), "bad": draw(st.one_of(st.none(), st.integers(0, 3), st.sampled_from([2 ** 31, 2 ** 40]))), "dec": draw(st.integers(0, 3)), "mid": draw(st.booleans())}
 
 
